@@ -5,6 +5,9 @@ INTERFACE lemmas (used by Properties/C04.lean) are marked `-- INTERFACE`: keep t
 import SpsdkVerif.Proofs.Sb2Image
 import SpsdkVerif.Model.Sb2Parse
 
+set_option linter.unusedSimpArgs false
+set_option linter.unusedVariables false
+
 namespace SpsdkVerif.Sb2
 open SpsdkVerif SpsdkVerif.Sb2.Rom
 open SpsdkVerif.Misc (Bytes beEnc beDec leEnc leDec bcdDigitOk)
@@ -15,11 +18,96 @@ variable {c : CryptoOps}
 
 /-! ## sections -/
 
+theorem canon_rawSize (x : Cmd) : x.canon.rawSize = x.rawSize := by
+  cases x <;> simp [Cmd.canon, Cmd.rawSize, Cmd.payload, zeroPad16_idem]
+
+theorem canon_rawSize_sum (cmds : List Cmd) : ((cmds.map Cmd.canon).map Cmd.rawSize).sum = Spec.cmdsLen cmds := by
+  rw [List.map_map, ← rawSize_sum]
+  congr 1
+  apply List.map_congr_left
+  intro x _
+  exact canon_rawSize x
+
 -- INTERFACE: the parsed section object occupies exactly the bytes of the built section and reports the effective MAC count
 theorem parsedSection_facts (s : Section) (wf : Spec.WFsection s) :
     (Parse.parsedSection s).rawSize = Spec.sectionLen s ∧ (Parse.parsedSection s).effHmacCount = Spec.macCount s ∧
     (Parse.parsedSection s).uid = s.uid := by
-  sorry
+  have ⟨e1, e2, e3⟩ := effHmacCount_eq s wf
+  have ⟨r1, r2, r3⟩ := rawSize_eq_sectionLen s wf
+  obtain ⟨_, hne, _, _⟩ := wf
+  have ⟨h2, h3⟩ := cmdsLen_facts s.cmds hne
+  have hc : (Parse.parsedSection s).effHmacCount = Spec.macCount s := by
+    unfold Parse.parsedSection
+    rw [e1]
+    unfold Section.effHmacCount
+    simp only [canon_rawSize_sum]
+    repeat' split
+    all_goals omega
+  refine ⟨?_, hc, rfl⟩
+  unfold Section.rawSize
+  rw [hc]
+  unfold Parse.parsedSection
+  simp only [canon_rawSize_sum]
+  unfold Spec.sectionLen at *
+  rw [align16_of_mod (by omega)]
+  omega
+
+theorem ctrBlocks_invol (h : CryptoLaws c) (dek nonce : Bytes) (n ctr : Nat) (d : Bytes) (hd : d.length = 16 * n) :
+    ctrBlocks c dek nonce n ctr (ctrBlocks c dek nonce n ctr d) = d := by
+  induction n generalizing ctr d with
+  | zero => simp [ctrBlocks]; exact List.eq_nil_of_length_eq_zero (by omega)
+  | succ n ih =>
+    simp only [ctrBlocks]
+    have hB : (xorBytes (d.take 16) (ksBlock c dek nonce ctr)).length = 16 := by
+      simp [ksBlock_length h]; omega
+    rw [List.take_left' hB, List.drop_left' hB, Crypto.xorBytes_cancel _ _ (by simp [ksBlock_length h]; omega),
+      ih _ _ (by simp; omega), List.take_append_drop]
+
+theorem parseCmds_cmdsData (cmds : List Cmd) (wf : ∀ x ∈ cmds, Spec.WFcmd x) (fuel : Nat) (hf : cmds.length ≤ fuel) :
+    Parse.parseCmds fuel (cmdsData cmds) = .ok (cmds.map Cmd.canon) := by
+  rw [cmdsData_eq]
+  induction cmds generalizing fuel with
+  | nil => cases fuel <;> simp [Parse.parseCmds]
+  | cons x cmds ih =>
+    cases fuel with
+    | zero => simp at hf
+    | succ fuel =>
+      have hx := wf x (by simp)
+      have hne : ((x :: cmds).map encodeCmd).flatten.isEmpty = false := by
+        have h1 := flatten_encode_length (x :: cmds)
+        have h2 := (cmdLen_pos x).1
+        rw [cmdsLen_cons] at h1
+        cases h : ((x :: cmds).map encodeCmd).flatten with
+        | nil => rw [h] at h1; simp at h1; omega
+        | cons _ _ => rfl
+      rw [Parse.parseCmds, hne]
+      simp only [List.map_cons, List.flatten_cons, Bool.false_eq_true, if_false]
+      rw [decodeCmd_encodeCmd x hx]
+      simp only
+      rw [List.drop_left, ih (fun y hy => wf y (by simp [hy])) fuel (by simpa using hf)]
+
+theorem checkTable_eq_checkMacs (mac data : Bytes) (hc bs rem off : Nat) (tbl : Bytes) (hb : bs * (hc - 1) ≤ rem) :
+    Parse.checkTable c mac data hc bs rem off tbl = Rom.checkMacs c mac hc bs tbl (Rom.slice data off rem) := by
+  induction hc generalizing rem off tbl with
+  | zero => simp [Parse.checkTable, Rom.checkMacs]
+  | succ n ih =>
+    cases n with
+    | zero => simp [Parse.checkTable, Rom.checkMacs]
+    | succ m =>
+      simp only [Parse.checkTable, Rom.checkMacs]
+      have hbr : bs ≤ rem := by
+        have : bs * (m + 1) ≤ rem := by simpa using hb
+        have : bs ≤ bs * (m + 1) := Nat.le_mul_of_pos_right _ (by omega)
+        omega
+      have e1 : Rom.slice data off bs = (Rom.slice data off rem).take bs := by
+        simp only [Rom.slice, List.take_take, Nat.min_eq_left hbr]
+      have e2 : Rom.slice data (off + bs) (rem - bs) = (Rom.slice data off rem).drop bs := by
+        simp only [Rom.slice, List.drop_take, List.drop_drop]
+      rw [ih (rem - bs) (off + bs) (tbl.drop 32) (by
+        have : bs * (m + 1) ≤ rem := by simpa using hb
+        rw [Nat.mul_succ] at this
+        simp; omega), e1, e2]
+
 
 -- INTERFACE: `BootSectionV2.parse` on a section built for its position: the section object, and the counter has
 -- advanced by the section's length in blocks
@@ -29,11 +117,266 @@ theorem parseSection_buildSection (h : CryptoLaws c) (dek mac nonce pre post : B
         (pre ++ buildSection c dek mac nonce (nonceCtr nonce + pre.length / 16) s ++ post) pre.length
         (nonceCtr nonce + pre.length / 16)
       = .ok (Parse.parsedSection s, nonceCtr nonce + pre.length / 16 + Spec.sectionLen s / 16) := by
-  sorry
+  have ⟨e1, e2, e3⟩ := effHmacCount_eq s wf
+  have ⟨l1, l2⟩ := cmdsData_length s.cmds
+  have hr0 := sectionHdr_inRange s wf
+  obtain ⟨wuid, hne, wcmds, wlen⟩ := wf
+  have ⟨l3, l4⟩ := cmdsLen_facts s.cmds hne
+  have hps : Parse.parsedSection s = ⟨s.uid, Spec.macCount s, s.cmds.map Cmd.canon⟩ := by
+    unfold Parse.parsedSection; rw [e1]
+  have hsl : Spec.sectionLen s / 16 = 3 + 2 * Spec.macCount s + Spec.cmdsLen s.cmds / 16 := by
+    unfold Spec.sectionLen; omega
+  rw [hps, hsl]
+  unfold buildSection buildSectionWith
+  simp only [e1]
+  generalize nonceCtr nonce + pre.length / 16 = ctr
+  generalize hN : (cmdsData s.cmds).length / 16 = N
+  have hN' : Spec.cmdsLen s.cmds = 16 * N := by omega
+  have hN2 : Spec.cmdsLen s.cmds / 16 = N := by omega
+  rw [hN2] at hr0 ⊢
+  generalize hhc : Spec.macCount s = hc at *
+  generalize hhdr : (⟨Sb2Consts.tagTag, imageSectionFlags, s.uid, N, hc⟩ : CmdHdr) = hdr at *
+  generalize heh : xorBytes (encodeHdr hdr) (ksBlock c dek nonce ctr) = eh
+  have leh : eh.length = 16 := by subst heh; simp [encodeHdr_length, ksBlock_length h]
+  generalize hec : ctrBlocks c dek nonce N (ctr + (1 + (hc + 1) * 2)) (cmdsData s.cmds) = ec
+  have lec : ec.length = 16 * N := by subst hec; exact ctrBlocks_length h _ _ _ _ _ (by omega)
+  have hcm := checkMacs_hmacEntries h mac hc (N / hc * 16) ec
+  generalize htbl : hmacEntries c mac hc (N / hc * 16) ec = tbl at hcm
+  have ltbl : tbl.length = 32 * hc := by subst htbl; exact hmacEntries_length h _ _ _ _
+  have lhm := hmac256_length h mac eh
+  generalize hfile : pre ++ (eh ++ hmac256 c mac eh ++ tbl ++ ec) ++ post = file
+  have F2 : Rom.slice file pre.length 16 = eh := by
+    have : file = pre ++ eh ++ (hmac256 c mac eh ++ tbl ++ ec ++ post) := by subst hfile; simp [List.append_assoc]
+    rw [this]; exact slice_mid _ _ _ _ _ rfl leh.symm
+  have F3 : Rom.slice file (pre.length + 16) 32 = hmac c .sha256 mac eh := by
+    have : file = (pre ++ eh) ++ hmac256 c mac eh ++ (tbl ++ ec ++ post) := by subst hfile; simp [List.append_assoc]
+    rw [this]; exact slice_mid _ _ _ _ _ (by simp [leh]) lhm.symm
+  have F6 : Rom.slice file (pre.length + 48) (32 * hc) = tbl := by
+    have : file = (pre ++ eh ++ hmac256 c mac eh) ++ tbl ++ (ec ++ post) := by subst hfile; simp [List.append_assoc]
+    rw [this]; exact slice_mid _ _ _ _ _ (by simp [leh, lhm]) ltbl.symm
+  have F7 : Rom.slice file (pre.length + 48 + 32 * hc) (N * 16) = ec := by
+    have : file = (pre ++ eh ++ hmac256 c mac eh ++ tbl) ++ ec ++ post := by subst hfile; simp [List.append_assoc]
+    rw [this]; exact slice_mid _ _ _ _ _ (by simp [leh, lhm, ltbl]; omega) (by omega)
+  have F4 : xorBytes eh (ksBlock c dek nonce ctr) = encodeHdr hdr := by
+    rw [← heh]
+    exact Crypto.xorBytes_cancel _ _ (by simp [encodeHdr_length, ksBlock_length h])
+  have F5 : decodeHdr (encodeHdr hdr) = .ok hdr := by
+    have := decodeHdr_encodeHdr hdr hr0 []
+    rwa [List.append_nil] at this
+  have hb : N / hc * 16 * (hc - 1) ≤ N * 16 := by
+    have h1 : N / hc * hc ≤ N := Nat.div_mul_le_self N hc
+    have h2 : N / hc * (hc - 1) ≤ N / hc * hc := Nat.mul_le_mul_left _ (by omega)
+    have h3 : N / hc * 16 * (hc - 1) = N / hc * (hc - 1) * 16 := by
+      rw [Nat.mul_assoc, Nat.mul_comm 16, ← Nat.mul_assoc]
+    omega
+  have F8 : Parse.checkTable c mac file hc (N / hc * 16) (N * 16) (pre.length + 48 + 32 * hc) tbl = true := by
+    rw [checkTable_eq_checkMacs _ _ _ _ _ _ _ hb, F7, hcm]
+  have F9 : ctrBlocks c dek nonce ((ec.length + 15) / 16) (ctr + 1 + (hc + 1) * 2) ec = cmdsData s.cmds := by
+    rw [show (ec.length + 15) / 16 = N by omega, show ctr + 1 + (hc + 1) * 2 = ctr + (1 + (hc + 1) * 2) by omega, ← hec]
+    exact ctrBlocks_invol h _ _ _ _ _ (by omega)
+  have F10 := parseCmds_cmdsData s.cmds wcmds ((cmdsData s.cmds).length + 1) (by have := cmds_length_le s.cmds; omega)
+  have g1 : hdr.data = hc := by subst hhdr; rfl
+  have g2 : hdr.count = N := by subst hhdr; rfl
+  have g3 : hdr.address = s.uid := by subst hhdr; rfl
+  unfold Parse.parseSection
+  simp only [F2, F3, F4, F5, g1, g2, g3, F6, F7, F8, F9, F10]
+  rw [if_neg (fun hne => hne rfl), if_neg (by omega), if_neg (by simp)]
+  rw [show ctr + 1 + (hc + 1) * 2 + (ec.length + 15) / 16 = ctr + (3 + 2 * hc + N) by omega]
+
+/-! ## image header and key blob through the parser -/
+
+theorem swap16_leDec_leEnc (v : Nat) (hv : v < 65536) : swap16 (leDec (leEnc 2 (swap16 v))) = v := by
+  have e1 : swap16 v = v % 256 * 256 + v / 256 := Base.swap16_nat v hv
+  have hlt : swap16 v < 65536 := by rw [e1]; omega
+  rw [leDec_leEnc 2 _ (by simpa using hlt)]
+  have e2 : swap16 (swap16 v) = swap16 v % 256 * 256 + swap16 v / 256 := Base.swap16_nat _ hlt
+  rw [e2, e1]
+  omega
+
+theorem decodeImageHdr_encode (h : ImageHdr) (ok : HdrOk h) (hpv : Parse.bcdVersionOk h.productVersion)
+    (hcv : Parse.bcdVersionOk h.componentVersion) :
+    Parse.decodeImageHdr (encodeImageHdr h) = .ok h.toRom := by
+  have e : encodeImageHdr h =
+      [h.nonce, h.padding.take 4, Sb2Consts.imageSignature1, [u8 h.major], [u8 h.minor], leEnc 2 h.flags,
+       leEnc 4 h.imageBlocks, leEnc 4 h.firstBootTagBlock, leEnc 4 h.firstBootSectionId, leEnc 4 h.offsetToCert,
+       leEnc 2 h.headerBlocks, leEnc 2 h.keyBlobBlock, leEnc 2 h.keyBlobBlockCount, leEnc 2 h.maxSectionMacCount,
+       Sb2Consts.imageSignature2, leEnc 8 h.timestamp,
+       leEnc 2 (swap16 h.productVersion.major), leEnc 2 0, leEnc 2 (swap16 h.productVersion.minor), leEnc 2 0,
+       leEnc 2 (swap16 h.productVersion.service), leEnc 2 0,
+       leEnc 2 (swap16 h.componentVersion.major), leEnc 2 0, leEnc 2 (swap16 h.componentVersion.minor), leEnc 2 0,
+       leEnc 2 (swap16 h.componentVersion.service), leEnc 2 0,
+       leEnc 4 h.buildNumber, (h.padding.drop 4).take 4].flatten ++ [] := by
+    simp [encodeImageHdr, versionWords, List.append_assoc]
+  have hl := encodeImageHdr_length h ok.nonce ok.padding
+  unfold Parse.decodeImageHdr
+  rw [if_neg (by rw [hl]; decide)]
+  rw [e, splitW_flatten _ _ (by
+    simp [Sb2Consts.imageHeaderFmt, leEnc_length, ok.nonce, ok.padding, Sb2Consts.imageSignature1, Sb2Consts.imageSignature2])]
+  simp only []
+  rw [if_neg (fun hne => hne rfl), if_neg (fun hne => hne rfl)]
+  obtain ⟨p0, p1, p2⟩ := ok.productVersion
+  obtain ⟨c0, c1, c2⟩ := ok.componentVersion
+  obtain ⟨b0, b1, b2⟩ := hpv
+  obtain ⟨d0, d1, d2⟩ := hcv
+  rw [swap16_leDec_leEnc _ p0, swap16_leDec_leEnc _ p1, swap16_leDec_leEnc _ p2,
+    swap16_leDec_leEnc _ c0, swap16_leDec_leEnc _ c1, swap16_leDec_leEnc _ c2]
+  rw [if_neg (by simp [b0, b1, b2, d0, d1, d2])]
+  rw [leDec_single, leDec_single, u8_toNat _ ok.major, u8_toNat _ ok.minor,
+    leDec_leEnc 2 _ (by simpa using ok.flags), leDec_leEnc 4 _ (by simpa using ok.imageBlocks),
+    leDec_leEnc 4 _ (by simpa using ok.firstBootTagBlock), leDec_leEnc 4 _ (by simpa using ok.firstBootSectionId),
+    leDec_leEnc 4 _ (by simpa using ok.offsetToCert), leDec_leEnc 2 _ (by simpa using ok.headerBlocks),
+    leDec_leEnc 2 _ (by simpa using ok.keyBlobBlock), leDec_leEnc 2 _ (by simpa using ok.keyBlobBlockCount),
+    leDec_leEnc 2 _ (by simpa using ok.maxSectionMacCount), leDec_leEnc 8 _ (by simpa using ok.timestamp),
+    leDec_leEnc 4 _ (by simpa using ok.buildNumber)]
+  rfl
+
+theorem kekLenOk_nonempty (kek : Bytes) (hk : Parse.kekLenOk kek = true) : kek.isEmpty = false := by
+  cases kek with
+  | nil => simp [Parse.kekLenOk] at hk
+  | cons _ _ => rfl
+
+theorem keyBlobSlice (data : Bytes) (hl : 208 ≤ data.length) :
+    (Rom.slice data 128 80).take ((Rom.slice data 128 80).length - 8) = Rom.slice data 128 72 := by
+  have : (Rom.slice data 128 80).length = 80 := by simp [Rom.slice]; omega
+  rw [this]
+  simp [Rom.slice, List.take_take]
+
+theorem unwrapKeys_ok (h : CryptoLaws c) (kek dek mac data : Bytes) (hk : Parse.kekLenOk kek = true)
+    (hl : 208 ≤ data.length) (hs : Rom.slice data 128 72 = kwWrap c kek (dek ++ mac))
+    (ld : dek.length = 32) (lm : mac.length = 32) :
+    Parse.unwrapKeys c kek data = .ok (dek, mac) := by
+  unfold Parse.unwrapKeys
+  rw [if_neg (by rw [kekLenOk_nonempty kek hk]; simp), if_neg (by rw [hk]; simp)]
+  simp only [Sb2Consts.imageHeaderFmtSize, Sb2Consts.v21HeaderMacSize, Sb2Consts.v21KeyBlobSize, Nat.reduceAdd]
+  rw [keyBlobSlice data hl, hs, Crypto.kw_inv h _ _ (by simp [ld, lm]) (by simp [ld, lm])]
+  simp only []
+  rw [List.take_left' ld, List.drop_left' ld]
+
+theorem unwrapKeys_wrong (kek kek' dek mac data : Bytes)
+    (hl : 208 ≤ data.length) (hs : Rom.slice data 128 72 = kwWrap c kek (dek ++ mac)) (hk : kek' ≠ kek) :
+    (∃ e, Parse.unwrapKeys c kek' data = .error e) ∨ Break c := by
+  by_cases hsome : (kwUnwrap c kek' (kwWrap c kek (dek ++ mac))).isSome
+  · exact Or.inr (Break.wrapForgery kek kek' _ (Ne.symm hk) hsome)
+  · left
+    unfold Parse.unwrapKeys
+    by_cases he : kek'.isEmpty = true
+    · exact ⟨_, if_pos he⟩
+    · rw [if_neg he]
+      by_cases hk' : (!Parse.kekLenOk kek') = true
+      · exact ⟨_, if_pos hk'⟩
+      · rw [if_neg hk']
+        simp only [Sb2Consts.imageHeaderFmtSize, Sb2Consts.v21HeaderMacSize, Sb2Consts.v21KeyBlobSize, Nat.reduceAdd]
+        rw [keyBlobSlice data hl, hs]
+        cases hu : kwUnwrap c kek' (kwWrap c kek (dek ++ mac)) with
+        | none => exact ⟨_, rfl⟩
+        | some k => rw [hu] at hsome; simp at hsome
+
+
+/-! ## section loops -/
+
+theorem parseSections21_buildSections (h : CryptoLaws c) (dek mac nonce post : Bytes) (ss : List Section)
+    (wf : ∀ s ∈ ss, Spec.WFsection s) (pre : Bytes) (hpre : pre.length % 16 = 0) (fuel : Nat) (hf : ss.length < fuel)
+    (first : Bool) (hfirst : first = true → ss ≠ []) :
+    Parse.parseSections21 c dek mac nonce
+        (pre ++ buildSections c dek mac nonce (nonceCtr nonce + pre.length / 16) ss ++ post)
+        (pre.length + Spec.sectionsLen ss) fuel first pre.length (nonceCtr nonce + pre.length / 16)
+      = .ok (ss.map Parse.parsedSection) := by
+  induction ss generalizing pre fuel first with
+  | nil =>
+    cases fuel with
+    | zero => omega
+    | succ f =>
+      have : first = false := by cases first <;> simp_all
+      subst this
+      simp [Parse.parseSections21, Spec.sectionsLen]
+  | cons s rest ih =>
+    have wfs := wf s (by simp)
+    have ⟨_, r2, r3⟩ := rawSize_eq_sectionLen s wfs
+    have ⟨p1, _, _⟩ := parsedSection_facts s wfs
+    cases fuel with
+    | zero => omega
+    | succ f =>
+      generalize hb : buildSection c dek mac nonce (nonceCtr nonce + pre.length / 16) s = b
+      have hl : b.length = Spec.sectionLen s := by subst hb; exact buildSectionWith_length h _ _ _ _ _ s wfs
+      have hsl : Spec.sectionsLen (s :: rest) = Spec.sectionLen s + Spec.sectionsLen rest := by
+        simp [Spec.sectionsLen]
+      have hdiv : (pre ++ b).length / 16 = pre.length / 16 + Spec.sectionLen s / 16 := by
+        rw [List.length_append, hl]; omega
+      have hfile : pre ++ buildSections c dek mac nonce (nonceCtr nonce + pre.length / 16) (s :: rest) ++ post
+          = pre ++ b ++ (buildSections c dek mac nonce (nonceCtr nonce + (pre ++ b).length / 16) rest ++ post) := by
+        rw [hdiv, ← hl]
+        simp only [buildSections, hb, List.append_assoc, Nat.add_assoc]
+      have hps := parseSection_buildSection h dek mac nonce pre
+        (buildSections c dek mac nonce (nonceCtr nonce + (pre ++ b).length / 16) rest ++ post) s wfs hpre
+      rw [hb] at hps
+      have hih := ih (fun x hx => wf x (by simp [hx])) (pre ++ b) (by simp; omega) f (by simpa using hf) false (by simp)
+      have hstop : pre.length + Spec.sectionsLen (s :: rest) = (pre ++ b).length + Spec.sectionsLen rest := by
+        simp [hsl, hl]; omega
+      have hnext : pre.length + (Parse.parsedSection s).rawSize = (pre ++ b).length := by simp [hl, p1]
+      have hctr : nonceCtr nonce + pre.length / 16 + Spec.sectionLen s / 16 = nonceCtr nonce + (pre ++ b).length / 16 := by
+        rw [hdiv]; omega
+      rw [hfile]
+      unfold Parse.parseSections21
+      rw [if_neg (by simp; omega), hps]
+      simp only []
+      rw [hstop, hnext, hctr, ← List.append_assoc, hih]
+      simp
+
+theorem parseSections20_buildSections (h : CryptoLaws c) (dek mac nonce post : Bytes) (ss : List Section)
+    (wf : ∀ s ∈ ss, Spec.WFsection s) (pre : Bytes) (hpre : pre.length % 16 = 0) (fuel : Nat) (hf : ss.length < fuel)
+    (seen : List Nat) (hseen : ∀ s ∈ ss, s.uid ∉ seen) (hu : (ss.map (·.uid)).Nodup) :
+    Parse.parseSections20 c dek mac nonce
+        (pre ++ buildSections c dek mac nonce (nonceCtr nonce + pre.length / 16) ss ++ post)
+        (pre.length + Spec.sectionsLen ss) fuel seen pre.length (nonceCtr nonce + pre.length / 16)
+      = .ok (ss.map Parse.parsedSection) := by
+  induction ss generalizing pre fuel seen with
+  | nil =>
+    cases fuel with
+    | zero => omega
+    | succ f => simp [Parse.parseSections20, Spec.sectionsLen]
+  | cons s rest ih =>
+    have wfs := wf s (by simp)
+    have ⟨_, r2, r3⟩ := rawSize_eq_sectionLen s wfs
+    have ⟨p1, _, p3⟩ := parsedSection_facts s wfs
+    cases fuel with
+    | zero => omega
+    | succ f =>
+      generalize hb : buildSection c dek mac nonce (nonceCtr nonce + pre.length / 16) s = b
+      have hl : b.length = Spec.sectionLen s := by subst hb; exact buildSectionWith_length h _ _ _ _ _ s wfs
+      have hsl : Spec.sectionsLen (s :: rest) = Spec.sectionLen s + Spec.sectionsLen rest := by
+        simp [Spec.sectionsLen]
+      have hdiv : (pre ++ b).length / 16 = pre.length / 16 + Spec.sectionLen s / 16 := by
+        rw [List.length_append, hl]; omega
+      have hfile : pre ++ buildSections c dek mac nonce (nonceCtr nonce + pre.length / 16) (s :: rest) ++ post
+          = pre ++ b ++ (buildSections c dek mac nonce (nonceCtr nonce + (pre ++ b).length / 16) rest ++ post) := by
+        rw [hdiv, ← hl]
+        simp only [buildSections, hb, List.append_assoc, Nat.add_assoc]
+      have hps := parseSection_buildSection h dek mac nonce pre
+        (buildSections c dek mac nonce (nonceCtr nonce + (pre ++ b).length / 16) rest ++ post) s wfs hpre
+      rw [hb] at hps
+      have hu' : s.uid ∉ rest.map (·.uid) ∧ (rest.map (·.uid)).Nodup := by simpa using hu
+      have hih := ih (fun x hx => wf x (by simp [hx])) (pre ++ b) (by simp; omega) f (by simpa using hf)
+        (s.uid :: seen) (by
+          intro x hx hm
+          rcases List.mem_cons.1 hm with e | e
+          · exact hu'.1 (List.mem_map.2 ⟨x, hx, e⟩)
+          · exact hseen x (by simp [hx]) e) hu'.2
+      have hstop : pre.length + Spec.sectionsLen (s :: rest) = (pre ++ b).length + Spec.sectionsLen rest := by
+        simp [hsl, hl]; omega
+      have hnext : pre.length + (Parse.parsedSection s).rawSize = (pre ++ b).length := by simp [hl, p1]
+      have hctr : nonceCtr nonce + pre.length / 16 + Spec.sectionLen s / 16 = nonceCtr nonce + (pre ++ b).length / 16 := by
+        rw [hdiv]; omega
+      rw [hfile]
+      unfold Parse.parseSections20
+      rw [if_neg (by omega), hps]
+      simp only []
+      rw [if_neg (by rw [p3]; exact hseen s (by simp)), p3, hstop, hnext, hctr, ← List.append_assoc, hih]
+      simp
+
 
 /-! ## V2.1 -/
 
--- INTERFACE (parser_agrees): SPSDK's parser returns what was given to the builder
+-- INTERFACE
 theorem parseV21_buildV21 (h : CryptoLaws c) (cfg : Cfg) (wf : Spec.WF21 cfg)
     (hk : Parse.kekLenOk cfg.kek = true)
     (hpv : Parse.bcdVersionOk cfg.productVersion) (hcv : Parse.bcdVersionOk cfg.componentVersion)
@@ -42,15 +385,248 @@ theorem parseV21_buildV21 (h : CryptoLaws c) (cfg : Cfg) (wf : Spec.WF21 cfg)
     (hraw : ci.rawSize = cfg.certBlock.length) (hsz : ci.sigSize = cfg.signature.length)
     (hver : ci.verify cfg.signature (cfg.signed21 c) = true) :
     Parse.parseV21 c cp cfg.kek (buildV21 c cfg) = .ok (Parse.parsedOf21 cfg) := by
-  sorry
+  obtain ⟨f1, f2, f3, f4, f5, f6, f7, f8, f9, f10, f11, f12, f13, f14, f15⟩ := v21_facts h cfg wf
+  have ⟨hok, hrom⟩ := header21_facts cfg wf
+  have hstart := start21_aligned cfg wf
+  obtain ⟨wdek, wmac, wnonce, wpad, wts, wpv, wcv, wbn, wfl, wsg, wcert, wsig, wne, wsec, wlen, wmc⟩ := wf
+  have hstop : Spec.fileLen21 cfg / 16 * 16 = (buildV21 c cfg).length := by
+    rw [f1, fileLen21_sha]; have := shaLen21_cases cfg; omega
+  have hdec : Parse.decodeImageHdr ((buildV21 c cfg).take 96) = .ok (hd21 cfg) := by
+    rw [f5, decodeImageHdr_encode _ hok hpv hcv, hrom]
+  generalize hfile : buildV21 c cfg = file at *
+  have hcert : cp (file.drop 208) = some ci := by
+    have : file.drop 208 = cfg.certBlock ++ (file.drop 208).drop cfg.certBlock.length := by
+      have := List.take_append_drop cfg.certBlock.length (file.drop 208)
+      unfold Rom.slice at f9
+      rw [f9] at this
+      exact this.symm
+    rw [this]; exact hcp _
+  generalize hhd : hd21 cfg = hd at hdec
+  have ⟨g3, g5, g9, g10⟩ : hd.flags = cfg.flags ∧ hd.offsetToCert = 208 ∧
+      hd.imageBlocks = Spec.fileLen21 cfg / 16 ∧ hd.nonce = cfg.nonce := by
+    subst hhd; exact ⟨rfl, rfl, rfl, rfl⟩
+  unfold Parse.parseV21
+  rw [unwrapKeys_ok h cfg.kek cfg.dek cfg.mac file hk (by omega) f8 wdek wmac]
+  simp only [Sb2Consts.imageHeaderFmtSize]
+  rw [hdec]
+  simp only [g3, g5, g9, g10, headerKeysLen_eq, hstop, Sb2Consts.v21FlagsShaPresentBit, Sb2Consts.v21Sha256Size]
+  rw [if_neg (fun hne => hne rfl), hcert]
+  simp only [hraw, hsz, flags_sha_iff, decide_eq_true_eq, ← shaLen21.eq_1]
+  rw [f11, f13, hver, if_neg (by simp)]
+  have hbsO : cfg.bsOffset21 = 208 + cfg.certBlock.length + shaLen21 cfg + cfg.signature.length := bsOffset21_eq cfg
+  generalize hst : 208 + cfg.certBlock.length + shaLen21 cfg + cfg.signature.length = start at *
+  rw [if_neg (by omega)]
+  have hsha : (decide (cfg.flags / 32768 % 2 = 1) &&
+      Rom.slice file (208 + cfg.certBlock.length) 32 != c.hash .sha256 (cfg.bsData21 c)) = false := by
+    rcases shaLen21_cases cfg with ⟨hs, hl⟩ | ⟨hs, hl⟩
+    · rw [hl] at f10
+      rw [if_pos ((shaPresent_iff cfg).2 hs)] at f10
+      rw [f10]
+      simp
+    · simp [hs]
+  have hpre : file = file.take start ++ cfg.bsData21 c ++ [] := by
+    rw [List.append_nil, ← f12, List.take_append_drop]
+  have lpre : (file.take start).length = start := by rw [List.length_take]; omega
+  have hps := parseSections21_buildSections h cfg.dek cfg.mac cfg.nonce [] cfg.sections wsec (file.take start)
+    (by rw [lpre]; omega) (file.length + 2) (by have := sections_length_le cfg.sections wsec; omega) true (fun _ => wne)
+  have hbsd : cfg.bsData21 c = buildSections c cfg.dek cfg.mac cfg.nonce (nonceCtr cfg.nonce + start / 16) cfg.sections := by
+    unfold Cfg.bsData21; rw [hbsO]
+  rw [lpre, ← hbsd, ← hpre, show start + Spec.sectionsLen cfg.sections = file.length by omega] at hps
+  rw [hps]
+  simp only []
+  rw [f12, hsha]
+  subst hhd
+  simp [Parse.parsedOf21, hd21]
 
--- INTERFACE: a different KEK makes the parser raise — unless RFC 3394 integrity is broken
+
+-- INTERFACE
 theorem parseV21_wrong_kek (h : CryptoLaws c) (cfg : Cfg) (wf : Spec.WF21 cfg) (cp : Parse.CertParser)
     (kek' : Bytes) (hk : kek' ≠ cfg.kek) :
     (∃ e, Parse.parseV21 c cp kek' (buildV21 c cfg) = .error e) ∨ Break c := by
-  sorry
+  obtain ⟨f1, f2, f3, f4, f5, f6, f7, f8, f9, f10, f11, f12, f13, f14, f15⟩ := v21_facts h cfg wf
+  rcases unwrapKeys_wrong cfg.kek kek' cfg.dek cfg.mac (buildV21 c cfg) (by omega) f8 hk with ⟨e, he⟩ | hb
+  · left
+    refine ⟨e, ?_⟩
+    unfold Parse.parseV21
+    rw [he]
+  · exact Or.inr hb
 
 /-! ## V2.0 -/
+
+theorem file20_eq (h : CryptoLaws c) (cfg : Cfg) (hdr : ImageHdr) (cs sg : Bytes)
+    (lpre : (pre20 c cfg hdr).length = 208) (hcs : cs.length % 16 = 0) :
+    file20 c cfg hdr cs sg = (pre20 c cfg hdr ++ cs) ++
+      buildSections c cfg.dek cfg.mac cfg.nonce (nonceCtr cfg.nonce + (pre20 c cfg hdr ++ cs).length / 16) cfg.sections ++ sg := by
+  have : (pre20 c cfg hdr ++ cs).length / 16 = (pre20 c cfg hdr).length / 16 + cs.length / 16 := by
+    rw [List.length_append, lpre]; omega
+  rw [this, ← Nat.add_assoc]; rfl
+
+theorem parseSections20_file20 (h : CryptoLaws c) (cfg : Cfg) (hdr : ImageHdr) (cs sg : Bytes)
+    (lpre : (pre20 c cfg hdr).length = 208) (hcs : cs.length % 16 = 0)
+    (wsec : ∀ s ∈ cfg.sections, Spec.WFsection s) (hu : (cfg.sections.map (·.uid)).Nodup) :
+    Parse.parseSections20 c cfg.dek cfg.mac cfg.nonce (file20 c cfg hdr cs sg)
+        (208 + cs.length + Spec.sectionsLen cfg.sections) ((file20 c cfg hdr cs sg).length + 2) []
+        (208 + cs.length) (nonceCtr cfg.nonce + (208 + cs.length) / 16)
+      = .ok (cfg.sections.map Parse.parsedSection) := by
+  have hl : (pre20 c cfg hdr ++ cs).length = 208 + cs.length := by rw [List.length_append, lpre]
+  have hps := parseSections20_buildSections h cfg.dek cfg.mac cfg.nonce sg cfg.sections wsec (pre20 c cfg hdr ++ cs)
+    (by rw [hl]; omega) ((file20 c cfg hdr cs sg).length + 2) (by
+      have := sections_length_le cfg.sections wsec
+      rw [file20_eq h cfg hdr cs sg lpre hcs]
+      have ⟨lb, _⟩ := buildSections_length h cfg.dek cfg.mac cfg.nonce cfg.sections wsec
+        (nonceCtr cfg.nonce + (pre20 c cfg hdr ++ cs).length / 16)
+      simp only [List.length_append] at lb ⊢
+      omega) [] (by simp) hu
+  rw [← file20_eq h cfg hdr cs sg lpre hcs, hl] at hps
+  exact hps
+
+/-- the certificate section of a signed V2.0 file as SPSDK's parser reads it -/
+theorem certSection_parse_facts (h : CryptoLaws c) (dek mac nonce P cert rest cs file : Bytes) (lP : P.length = 208)
+    (hlen : cert.length / 16 < 2 ^ 32)
+    (hcs : cs = buildCertSection c dek mac nonce (nonceCtr nonce + P.length / 16) cert)
+    (hfile : file = P ++ cs ++ rest) :
+    Rom.slice file 224 32 = hmac c .sha256 mac (Rom.slice file 208 16) ∧
+    decodeHdr (xorBytes (Rom.slice file 208 16) (ksBlock c dek nonce (nonceCtr nonce + 208 / 16)))
+      = .ok ⟨Sb2Consts.tagTag, certSectionFlags, Sb2Consts.certSectionMark, cert.length / 16, 1⟩ ∧
+    file.drop 288 = cert ++ rest ∧
+    Rom.slice file 288 cert.length = cert ∧
+    Rom.slice file 256 32 = hmac c .sha256 mac cert := by
+  generalize hhdr : (⟨Sb2Consts.tagTag, certSectionFlags, Sb2Consts.certSectionMark, cert.length / 16, 1⟩ : CmdHdr) = hdr
+  have hr : hdr.inRange = true := by
+    subst hhdr
+    simp [CmdHdr.inRange, Sb2Consts.tagTag, certSectionFlags, Sb2Consts.sectFlagCleartext, Sb2Consts.sectFlagLastSect,
+      Sb2Consts.certSectionMark]
+    omega
+  generalize heh : xorBytes (encodeHdr hdr) (ksBlock c dek nonce (nonceCtr nonce + P.length / 16)) = eh
+  have leh : eh.length = 16 := by subst heh; simp [encodeHdr_length, ksBlock_length h]
+  have hcs' : cs = eh ++ hmac256 c mac eh ++ hmac256 c mac cert ++ cert := by
+    rw [hcs]; unfold buildCertSection; simp only [hhdr, heh]
+  have lm1 := hmac256_length h mac eh
+  have lm2 := hmac256_length h mac cert
+  have F1 : Rom.slice file 208 16 = eh := by
+    have : file = P ++ eh ++ (hmac256 c mac eh ++ hmac256 c mac cert ++ cert ++ rest) := by
+      rw [hfile, hcs']; simp only [List.append_assoc]
+    rw [this]; exact slice_mid _ _ _ _ _ lP.symm leh.symm
+  have F2 : Rom.slice file 224 32 = hmac256 c mac eh := by
+    have : file = (P ++ eh) ++ hmac256 c mac eh ++ (hmac256 c mac cert ++ cert ++ rest) := by
+      rw [hfile, hcs']; simp only [List.append_assoc]
+    rw [this]; exact slice_mid _ _ _ _ _ (by simp only [List.length_append, lP, leh]) lm1.symm
+  have F3 : Rom.slice file 256 32 = hmac256 c mac cert := by
+    have : file = (P ++ eh ++ hmac256 c mac eh) ++ hmac256 c mac cert ++ (cert ++ rest) := by
+      rw [hfile, hcs']; simp only [List.append_assoc]
+    rw [this]; exact slice_mid _ _ _ _ _ (by simp only [List.length_append, lP, leh, lm1]) lm2.symm
+  have hfile4 : file = (P ++ eh ++ hmac256 c mac eh ++ hmac256 c mac cert) ++ cert ++ rest := by
+    rw [hfile, hcs']; simp only [List.append_assoc]
+  have l4 : 288 = (P ++ eh ++ hmac256 c mac eh ++ hmac256 c mac cert).length := by
+    simp only [List.length_append, lP, leh, lm1, lm2]
+  have F4 : Rom.slice file 288 cert.length = cert := by
+    rw [hfile4]; exact slice_mid _ _ _ _ _ l4 rfl
+  have F5 : file.drop 288 = cert ++ rest := by
+    rw [hfile4, List.append_assoc]; exact List.drop_left' l4.symm
+  have F6 : xorBytes eh (ksBlock c dek nonce (nonceCtr nonce + 208 / 16)) = encodeHdr hdr := by
+    rw [← heh, lP]
+    exact Crypto.xorBytes_cancel _ _ (by simp [encodeHdr_length, ksBlock_length h])
+  have F7 : decodeHdr (encodeHdr hdr) = .ok hdr := by
+    have := decodeHdr_encodeHdr hdr hr []
+    rwa [List.append_nil] at this
+  refine ⟨?_, ?_, F5, F4, ?_⟩
+  · rw [F2, F1]; rfl
+  · rw [F1, F6, F7]
+  · rw [F3]; rfl
+
+
+theorem parseV20_unsigned (h : CryptoLaws c) (cfg : Cfg) (wf : Spec.WF20 cfg false)
+    (hk : Parse.kekLenOk cfg.kek = true)
+    (hpv : Parse.bcdVersionOk cfg.productVersion) (hcv : Parse.bcdVersionOk cfg.componentVersion)
+    (hu : (cfg.sections.map (·.uid)).Nodup) (cp : Parse.CertParser) :
+    Parse.parseV20 c cp cfg.kek (buildV20 c cfg false) = .ok (Parse.parsedOf20 cfg false) := by
+  have ⟨hok, hrom⟩ := header20_facts cfg false wf
+  obtain ⟨wdek, wmac, wnonce, wpad, wts, wpv, wcv, wbn, wsg, wne, wsec, wlen, wmc⟩ := wf
+  obtain ⟨lpre, -, flen, smod, ftake, fhmac, fkw, fread, fdrop, fsec⟩ :=
+    v20_facts h cfg (cfg.header20 false) [] [] hok wdek wmac wpad wsec (by simp)
+  have hps := parseSections20_file20 h cfg (cfg.header20 false) [] [] lpre (by simp) wsec hu
+  rw [buildV20_unsigned]
+  have hdec : Parse.decodeImageHdr ((file20 c cfg (cfg.header20 false) [] []).take 96) = .ok (hd20 cfg false) := by
+    rw [ftake, decodeImageHdr_encode _ hok hpv hcv, hrom]
+  generalize hfile : file20 c cfg (cfg.header20 false) [] [] = file at *
+  simp only [List.length_nil, Nat.add_zero] at flen hps
+  generalize hhd : hd20 cfg false = hd at hdec
+  have ⟨g1, g2, g3, g9, g10⟩ : hd.major = 2 ∧ hd.minor = 0 ∧ hd.flags = 4 ∧
+      hd.imageBlocks = Spec.bodyLen20 cfg false / 16 ∧ hd.nonce = cfg.nonce := by
+    subst hhd; exact ⟨rfl, rfl, rfl, rfl, rfl⟩
+  have hbl : Spec.bodyLen20 cfg false = 208 + Spec.sectionsLen cfg.sections := by simp [Spec.bodyLen20]
+  have hstop : Spec.bodyLen20 cfg false / 16 * 16 = 208 + Spec.sectionsLen cfg.sections := by omega
+  have hm : Rom.slice file 96 32 = hmac c .sha256 cfg.mac (file.take 96) := by rw [fhmac, ftake]; rfl
+  unfold Parse.parseV20
+  rw [unwrapKeys_ok h cfg.kek cfg.dek cfg.mac file hk (by omega) fkw wdek wmac]
+  simp only [Sb2Consts.imageHeaderFmtSize, Sb2Consts.v20HeaderMacSize]
+  rw [if_neg (fun hne => hne hm), hdec]
+  simp only [g1, g2, g3, g9, g10, hstop, headerKeysLen_eq, Sb2Consts.v20FlagsSigned, Sb2Consts.v20FlagsUnsigned]
+  rw [if_neg (by omega), if_neg (by omega), hps]
+  subst hhd
+  simp [Parse.parsedOf20, hd20]
+
+theorem parseV20_signed (h : CryptoLaws c) (cfg : Cfg) (wf : Spec.WF20 cfg true)
+    (hk : Parse.kekLenOk cfg.kek = true)
+    (hpv : Parse.bcdVersionOk cfg.productVersion) (hcv : Parse.bcdVersionOk cfg.componentVersion)
+    (hu : (cfg.sections.map (·.uid)).Nodup)
+    (cp : Parse.CertParser) (ci : Parse.CertInfo)
+    (hcp : ∀ rest, cp (cfg.certBlock ++ rest) = some ci)
+    (hraw : ci.rawSize = cfg.certBlock.length)
+    (hver : ci.verify cfg.signature (cfg.body20 c true) = true) :
+    Parse.parseV20 c cp cfg.kek (buildV20 c cfg true) = .ok (Parse.parsedOf20 cfg true) := by
+  have ⟨hok, hrom⟩ := header20_facts cfg true wf
+  have hbody := body20_length h cfg true wf
+  obtain ⟨wdek, wmac, wnonce, wpad, wts, wpv, wcv, wbn, wsg, wne, wsec, wlen, wmc⟩ := wf
+  obtain ⟨wcert, wsig⟩ := wsg rfl
+  have cmod := certBlockOk_mod _ wcert
+  have hbl : Spec.bodyLen20 cfg true = 288 + cfg.certBlock.length + Spec.sectionsLen cfg.sections := by
+    simp [Spec.bodyLen20]; omega
+  have htake : (buildV20 c cfg true).take (288 + cfg.certBlock.length + Spec.sectionsLen cfg.sections) = cfg.body20 c true := by
+    rw [← hbl, ← hbody]
+    exact List.take_left' rfl
+  rw [buildV20_signed] at htake ⊢
+  generalize hcs : buildCertSection c cfg.dek cfg.mac cfg.nonce
+    (nonceCtr cfg.nonce + (pre20 c cfg (cfg.header20 true)).length / 16) cfg.certBlock = cs at htake
+  have lcs : cs.length = 80 + cfg.certBlock.length := by subst hcs; exact buildCertSection_length h _ _ _ _ _
+  obtain ⟨lpre, ⟨rest, hshape⟩, flen, smod, ftake, fhmac, fkw, fread, fdrop, fsec⟩ :=
+    v20_facts h cfg (cfg.header20 true) cs cfg.signature hok wdek wmac wpad wsec (by omega)
+  have hps := parseSections20_file20 h cfg (cfg.header20 true) cs cfg.signature lpre (by omega) wsec hu
+  obtain ⟨c1, c2, c3, c4, c5⟩ := certSection_parse_facts h cfg.dek cfg.mac cfg.nonce _ cfg.certBlock rest cs _ lpre
+    (by omega) hcs.symm hshape
+  have hdec : Parse.decodeImageHdr ((file20 c cfg (cfg.header20 true) cs cfg.signature).take 96) = .ok (hd20 cfg true) := by
+    rw [ftake, decodeImageHdr_encode _ hok hpv hcv, hrom]
+  generalize hfile : file20 c cfg (cfg.header20 true) cs cfg.signature = file at *
+  rw [lcs] at flen fdrop hps
+  rw [show 208 + (80 + cfg.certBlock.length) = 288 + cfg.certBlock.length by omega] at flen fdrop hps
+  generalize hhd : hd20 cfg true = hd at hdec
+  have ⟨g1, g2, g3, g9, g10⟩ : hd.major = 2 ∧ hd.minor = 0 ∧ hd.flags = 8 ∧
+      hd.imageBlocks = Spec.bodyLen20 cfg true / 16 ∧ hd.nonce = cfg.nonce := by
+    subst hhd; exact ⟨rfl, rfl, rfl, rfl, rfl⟩
+  have hstop : Spec.bodyLen20 cfg true / 16 * 16 = 288 + cfg.certBlock.length + Spec.sectionsLen cfg.sections := by omega
+  have hm : Rom.slice file 96 32 = hmac c .sha256 cfg.mac (file.take 96) := by rw [fhmac, ftake]; rfl
+  have hcsec : Parse.parseCertSection c cp cfg.dek cfg.mac cfg.nonce file 208 (nonceCtr cfg.nonce + 208 / 16)
+      = .ok (ci, 80 + cfg.certBlock.length) := by
+    unfold Parse.parseCertSection
+    rw [if_neg (fun hne => hne c1), c2]
+    simp only []
+    rw [if_neg (fun hne => hne rfl), if_neg (fun hne => hne rfl), if_neg (fun hne => hne rfl), c3, hcp]
+    simp only [hraw]
+    rw [c4, if_neg (fun hne => hne c5), if_neg (by omega)]
+  unfold Parse.parseV20
+  rw [unwrapKeys_ok h cfg.kek cfg.dek cfg.mac file hk (by omega) fkw wdek wmac]
+  simp only [Sb2Consts.imageHeaderFmtSize, Sb2Consts.v20HeaderMacSize]
+  rw [if_neg (fun hne => hne hm), hdec]
+  simp only [g1, g2, g3, g9, g10, hstop, headerKeysLen_eq, Sb2Consts.v20FlagsSigned, Sb2Consts.v20FlagsUnsigned]
+  rw [if_neg (by omega), if_pos trivial, hcsec]
+  simp only []
+  rw [fdrop, htake, hver, if_neg (by simp)]
+  rw [show 208 + (80 + cfg.certBlock.length) = 288 + cfg.certBlock.length by omega,
+    show nonceCtr cfg.nonce + 208 / 16 + (80 + cfg.certBlock.length) / 16
+      = nonceCtr cfg.nonce + (288 + cfg.certBlock.length) / 16 by omega, hps]
+  subst hhd
+  simp [Parse.parsedOf20, hd20]
+
 
 -- INTERFACE
 theorem parseV20_buildV20 (h : CryptoLaws c) (cfg : Cfg) (signed : Bool) (wf : Spec.WF20 cfg signed)
@@ -62,12 +638,31 @@ theorem parseV20_buildV20 (h : CryptoLaws c) (cfg : Cfg) (signed : Bool) (wf : S
     (hraw : signed = true → ci.rawSize = cfg.certBlock.length)
     (hver : signed = true → ci.verify cfg.signature (cfg.body20 c true) = true) :
     Parse.parseV20 c cp cfg.kek (buildV20 c cfg signed) = .ok (Parse.parsedOf20 cfg signed) := by
-  sorry
+  cases signed
+  · exact parseV20_unsigned h cfg wf hk hpv hcv hu cp
+  · exact parseV20_signed h cfg wf hk hpv hcv hu cp ci (hcp rfl) (hraw rfl) (hver rfl)
 
 -- INTERFACE
 theorem parseV20_wrong_kek (h : CryptoLaws c) (cfg : Cfg) (signed : Bool) (wf : Spec.WF20 cfg signed)
     (cp : Parse.CertParser) (kek' : Bytes) (hk : kek' ≠ cfg.kek) :
     (∃ e, Parse.parseV20 c cp kek' (buildV20 c cfg signed) = .error e) ∨ Break c := by
-  sorry
+  have ⟨hok, hrom⟩ := header20_facts cfg signed wf
+  obtain ⟨wdek, wmac, wnonce, wpad, wts, wpv, wcv, wbn, wsg, wne, wsec, wlen, wmc⟩ := wf
+  have key : ∀ cs sg : Bytes, cs.length % 16 = 0 →
+      (∃ e, Parse.parseV20 c cp kek' (file20 c cfg (cfg.header20 signed) cs sg) = .error e) ∨ Break c := by
+    intro cs sg hcs
+    have F := v20_facts h cfg (cfg.header20 signed) cs sg hok wdek wmac wpad wsec hcs
+    rcases unwrapKeys_wrong cfg.kek kek' cfg.dek cfg.mac _ (by rw [F.len]; omega) F.kwAt hk with ⟨e, he⟩ | hb
+    · left
+      refine ⟨e, ?_⟩
+      unfold Parse.parseV20
+      rw [he]
+    · exact Or.inr hb
+  cases signed
+  · rw [buildV20_unsigned]; exact key [] [] (by simp)
+  · have ⟨wcert, _⟩ := wsg rfl
+    have := certBlockOk_mod _ wcert
+    rw [buildV20_signed]
+    exact key _ _ (by rw [buildCertSection_length h]; omega)
 
 end SpsdkVerif.Sb2
